@@ -584,7 +584,7 @@ async fn do_step(cx: &mut Cx, step: &Step) -> Result<(), Fail> {
             ensure!(r.is_ok(), "c13:abandon-failed", "abandon({}) failed: {:?}", vid, r.err().map(|e| err_kind(&e)));
             quiesce().await;
             // the released id goes to a new operation X (as after a wrap-around)
-            let mut spawn_probe = |cx: &mut Cx| {
+            let spawn_probe = |cx: &mut Cx| {
                 cx.msgmap.lock().unwrap().0 = (vid - 1) as i32;
                 let (_, mk) = cx.plan(Plan::Silent { late: false });
                 let mut l = cx.ldap.clone();
